@@ -109,6 +109,13 @@ def base_cases(r, tier):
     pre15 = [{"p": "dst", "k": "d"}, {"p": "dst/src", "k": "d"}, F("dst/src/NAME", 70, 610), F("dst/src/other", 80, 611), F("dst/src/other.~1~", 9, 612)]
     out.append({"name": "backup-named-siblings", "spec": spec15, "pre": pre15, "bs": "4096", "expect_fail": False, "opts": ["--backup", "numbered"], "per": 30 if tier == "quick" else 150})
     out.append({"name": "backup-named-siblings-auto", "spec": copy.deepcopy(spec15), "pre": copy.deepcopy(pre15), "bs": "4096", "expect_fail": False, "opts": ["--backup", "auto"], "per": 30 if tier == "quick" else 150})
+    # T15: ... and the same through a link whose target does not exist yet (it is about to be created by this very run), and with
+    # backups (where the rename of one name races with the look at the other)
+    pre16 = [{"p": "dst", "k": "d"}, {"p": "dst/src", "k": "d"}, {"p": "dst/src/a", "k": "l", "target": "b"}, {"p": "dst/src/c", "k": "l", "target": "./e"}]
+    out.append({"name": "dangling-link-to-sibling-destination", "spec": copy.deepcopy(spec12), "pre": pre16, "bs": "4096", "expect_fail": False, "per": 30 if tier == "quick" else 150})
+    pre17 = copy.deepcopy(pre13) + [F("dst/src/e.~1~", 7, 407)]
+    out.append({"name": "linked-destination-names-backup-auto", "spec": copy.deepcopy(spec12), "pre": pre17, "bs": "4096", "expect_fail": False, "opts": ["--backup", "auto"], "per": 30 if tier == "quick" else 150})
+    out.append({"name": "linked-destination-names-backup-numbered", "spec": copy.deepcopy(spec12), "pre": copy.deepcopy(pre13), "bs": "4096", "expect_fail": False, "opts": ["--backup", "numbered"], "per": 30 if tier == "quick" else 150})
     # T10: the same source named twice under -n: whether a worker has already created the copy when the walker meets the second
     # mention must not decide the exit status
     out.append({"name": "same-source-twice-noclobber", "spec": copy.deepcopy(spec), "pre": [{"p": "dst", "k": "d"}], "bs": "4096", "expect_fail": False, "opts": ["-n"],
